@@ -1,6 +1,6 @@
 """Shell properties: colour slices (C20), result archives (C16), CLI (C17), converter (C19)."""
 from . import gen, run
-from .props import net_props, worlds, thorough, ctx_spec, chunks
+from .props import cnt, net_props, worlds, thorough, ctx_spec, chunks
 
 NEEDS_BINS = {"C17", "C19"}
 
@@ -34,10 +34,10 @@ def judge_shell(chk):
 # ------------------------------------------------------------------ C20
 def gen_C20(chk):
     rng = chk.rng
-    ws = worlds(chk, n_random=(25 if thorough(chk) else 8))
+    ws = worlds(chk, n_random=cnt(chk, 8, 25))
     for nm, net in ws:
         props = net_props(net)
-        fs = [gen.random_formula(rng, rng.randint(1, 7), props, max_vars=2, binops=gen.BINOPS) for _ in range(10 if thorough(chk) else 6)]
+        fs = [gen.random_formula(rng, rng.randint(1, 7), props, max_vars=2, binops=gen.BINOPS) for _ in range(cnt(chk, 6, 10))]
         st_ = ("H", "Bind", "x", None, ("U", "AX", gen.T("V", "x")))
         pq = gen.T("P", props[0]) if len(props) < 2 else ("B", "And", gen.T("P", props[0]), gen.T("P", props[1]))
         fs += [("B", "AW", st_, pq), ("B", "EW", st_, pq), ("B", "EW", pq, ("U", "EX", st_))]
@@ -87,10 +87,10 @@ def judge_C20(chk):
 # ------------------------------------------------------------------ C16
 def gen_C16(chk):
     rng = chk.rng
-    ws = worlds(chk, n_random=(15 if thorough(chk) else 4))
+    ws = worlds(chk, n_random=cnt(chk, 4, 15))
     for nm, net in ws:
         props = net_props(net)
-        for j in range(6 if thorough(chk) else 2):
+        for j in range(cnt(chk, 2, 6)):
             labels = rng.sample(["a1", "formula-0", "formula-10", "x_y", "p", "d", "UP", "v.1", "bdd", "model", "é"],
                                 rng.randint(0, 5))
             ctx = []
@@ -148,11 +148,11 @@ def formula_file(rng, formulas):
 
 def gen_C17(chk):
     rng = chk.rng
-    ws = worlds(chk, quick_names=["N02", "N05", "N06", "N09", "N12", "N16", "N21"], n_random=(6 if thorough(chk) else 2))
+    ws = worlds(chk, quick_names=["N02", "N05", "N06", "N09", "N12", "N16", "N21"], n_random=cnt(chk, 2, 6))
     opts = ["no-print", "summary", "with-progress", "exhaustive"]
     for nm, net in ws:
         props = net_props(net)
-        for j in range(8 if thorough(chk) else 3):
+        for j in range(cnt(chk, 3, 8)):
             fs = [gen.render(gen.random_formula(rng, rng.randint(1, 6), props, max_vars=2)) if rng.random() < 0.6
                   else gen.render_variant(gen.random_formula(rng, rng.randint(1, 5), props, max_vars=2), rng).replace("\n", " ")
                   for _ in range(rng.randint(1, 4))]
@@ -162,13 +162,13 @@ def gen_C17(chk):
             add_shell(chk, "CLI", ["aeon", gen.hx(net), gen.hx(text), opts[j % 4], "-"], tag="cli-aeon",
                       meta={"net": net, "formulas": fs})
         # with a context archive
-        for j in range(4 if thorough(chk) else 2):
+        for j in range(cnt(chk, 2, 4)):
             fs = ["EF %p%", "3{x} in %d%: @{x}: AX {x}", "%p% & (!{x} in %d%: EX {x})"][: rng.randint(1, 3)]
             ctx = "%s=%s,%s=%s" % (gen.hx("p"), ctx_spec(rng), gen.hx("d"), ctx_spec(rng))
             add_shell(chk, "CLI", ["aeon", gen.hx(net), gen.hx(formula_file(rng, fs)), opts[1 + j % 3], ctx],
                       tag="cli-ctx", meta={"net": net})
     for nm, text in BNET.items():
-        for j in range(4 if thorough(chk) else 2):
+        for j in range(cnt(chk, 2, 4)):
             props = ["A", "B", "C"] if nm == "B1" else (["a"] if nm == "B2" else ["a", "b"])
             fs = [gen.render(gen.random_formula(rng, rng.randint(1, 5), props, max_vars=2)) for _ in range(rng.randint(1, 3))]
             add_shell(chk, "CLI", ["bnet", gen.hx(text), gen.hx(formula_file(rng, fs)), opts[(j + 1) % 4], "-"], tag="cli-bnet")
@@ -211,10 +211,10 @@ CONV_NETS = [
 def gen_C19(chk):
     rng = chk.rng
     nets = list(CONV_NETS)
-    for i in range(60 if thorough(chk) else 20):
+    for i in range(cnt(chk, 20, 60)):
         nets.append(gen.random_network(rng, max_n=3, max_bits=10))
     # constants named like the synthetic row constants of a function of the same network
-    for i in range(40 if thorough(chk) else 12):
+    for i in range(cnt(chk, 12, 40)):
         net = gen.random_network(rng, max_n=3, max_bits=8)
         lines = net.strip().split("\n")
         targets = [l for l in lines if l.startswith("$")]
@@ -266,7 +266,7 @@ def judge_model_tie(chk):
 def gen_shell_tie_C17(chk):
     rng = chk.rng
     pieces = ["a & b", "EF a", "# c", "", "  ", "\t", "!{x}: AX {x}", "#", " # x", "a\r", "\u00a0a\u2003", "x # y", "\x0b", "é & a"]
-    for j in range(300 if thorough(chk) else 60):
+    for j in range(cnt(chk, 60, 300)):
         lines = [rng.choice(pieces) for _ in range(rng.randint(0, 6))]
         lines = [rng.choice(["", " ", "\t"]) + l + rng.choice(["", " ", "\r", " \r"]) for l in lines]
         text = rng.choice(["\n", "\r\n"]).join(lines) + rng.choice(["", "\n", "\r\n", "\r"])
@@ -278,7 +278,7 @@ def gen_shell_tie_C16(chk):
     labels = ["a", "formula-0", "x.y", ".x", "a.", "a.bdd", "UP", "a/b", "a/", "/", "..", "a/..", ".", "é", "a b", "x..bdd", "-"]
     for l in labels:
         add_shell(chk, "LABEL", [gen.hx(l)], tag="label")
-    for j in range(100 if thorough(chk) else 20):
+    for j in range(cnt(chk, 20, 100)):
         l = "".join(rng.choice("ab./_-B1") for _ in range(rng.randint(1, 6)))
         add_shell(chk, "LABEL", [gen.hx(l)], tag="label")
 
